@@ -42,10 +42,10 @@ CHECKS.update({
  "C13": ("5.13", "Broadcast / Block.Sign / PreBlock.SetData of observers, flagged validators and validators restarted in watch-only mode are violations at the instant they happen (scenarios place the flagged validator at the primary position at Start and after Resets, make proposals fail verification, let verification callbacks reject); plus a differential pair run: the same tape with the special node never started must give the other nodes identical canonical traces."),
  "C14": ("5.14", "Every tape is executed twice against clocks that differ by a constant offset (seconds to decades, both signs, on both sides of the machine's wall clock); canonical traces (timestamps relative to the epoch, hashes as ordinals, timer durations verbatim) must be identical."),
  "C08": ("5.8", "Fault-free synchronous simulations (all honest, latency <= delta << T, exact timers) in which the tape permutes and duplicates the deliveries of every round and delays one node's Reset by up to 1.5 T so that next-height traffic is cached: every validator decides every height in view 0 on the same block and nobody broadcasts a change-view or recovery request. One run in ten is a 'ref' family run: the same oracle on a cluster wired to the repository's own internal/consensus payloads, internal/crypto P-256 signatures and gob wire codec (every payload encoded at the sender, decoded at each recipient)."),
- "C09": ("5.9", "Bounded liveness in GST simulations: <=F validators silent from the start (incl. the first primaries), arbitrary cut sets/instants/durations, amnesia restarts at arbitrary points (between calls, inside Broadcast, inside ProcessBlock); after faults stop every live validator must advance 3 heights within 400 T; with silence from the start on a synchronous network the deciding view is <= the number of silent validators; a budgeted faulty validator may also stop for good (crash-stop); step rule: a validator that holds nothing of its view takes the authentic proposal out of a recovery message of that view. Protocol-level known findings L1, L2, L3 (commit-lock stalls) and V1 (one wasted view), each with a scripted reproduction. One run in twelve is a 'ref' family run (reference payload/crypto/codec code, up to F validators silent from the start, synchrony from t=0, block sync: every live validator reaches the target height, all blocks equal)."),
+ "C09": ("5.9", "Bounded liveness in GST simulations: <=F validators silent from the start (incl. the first primaries), arbitrary cut sets/instants/durations, amnesia restarts at arbitrary points (between calls, inside Broadcast, inside ProcessBlock); after faults stop every live validator must advance 3 heights within 400 T; with silence from the start on a synchronous network the deciding view is <= the number of silent validators; a budgeted faulty validator may also stop for good (crash-stop); step rules: a validator that holds nothing of its view takes the authentic proposal out of a recovery message of that view; a lagging validator given an honest validator's recovery message from a higher view ends the call in a higher view. Protocol-level known findings L1, L2, L3 (commit-lock stalls) and V1 (one wasted view), each with a scripted reproduction. One run in twelve is a 'ref' family run (reference payload/crypto/codec code, up to F validators silent from the start, synchrony from t=0, block sync: every live validator reaches the target height, all blocks equal)."),
  "C15": ("5.15", "Every proposal of an honest-code primary is compared with an expectation recomputed from the clock reading and pool content the library obtained in that very call, under clock skew, backward/forward clock steps, unaligned clocks and increments 1, 7, 1000, 1e6, 7e6, 1e9, 999999937 ns; the primary's own block must carry the same values."),
  "C16": ("5.16", "Fault-free synchronous simulations with the maximum-block-time extension at ratios 1, 1.5, 2, 3, 8 (and off), N=1..7, transaction arrival processes (never / before the minimum / inside the extended wait / bursts) re-armed at every decided height: proposal spacing judged on simulated send instants (tolerance 4*delta), prompt proposal inside the OnNewTransaction call (when the notified transaction has left every pool again by the time the library looks, a prompt empty proposal and going on waiting are both accepted), no proposal later than the maximum block time after the previous one, no change-view/recovery request from a node whose pool is empty, no subscription without the extension; fault kinds: a notified transaction evicted before the library looks, and a verified pool that is empty at a second read inside one library call."),
- "C11": ("5.11", "Half of the evaluations are hostile cluster runs in which, at tape-chosen points, one node is given an input that an independent classifier labels inadmissible (index outside the list, past height, proposal from a non-primary, proposal/response of a lower view, response from the primary, a response naming another proposal than the one held, pre-commit while anti-MEV is off, unrequested transaction, timeout of another epoch) or a payload it already holds: whole-state fingerprint (exported tables, unexported state and future-message cache through the verif accessor, simulated timer) unchanged except the sender's last-seen entry, no broadcast (a recovery message is allowed for redeliveries), no timer call. The other half are API fuzz sequences (300-600 calls, 1-4 instances, arbitrary well-typed payloads, rejecting verification callbacks, failing ProcessBlock/ProcessPreBlock, validator set / own index / watch-only flag changing at Reset). Every call, organic or injected, runs under recover() with a development-mode logger, so DPanic assertions count as panics."),
+ "C11": ("5.11", "Half of the evaluations are hostile cluster runs in which, at tape-chosen points, one node is given an input that an independent classifier labels inadmissible (index outside the list, past height, proposal from a non-primary, proposal/response of a lower view, response from the primary, a response naming another proposal than the one held, a current-view vote whose signature/data does not verify against the header/pre-block the node holds, pre-commit while anti-MEV is off, unrequested transaction, timeout of another epoch) or a payload it already holds: whole-state fingerprint (exported tables, unexported state and future-message cache through the verif accessor, simulated timer) unchanged except the sender's last-seen entry, no broadcast (a recovery message is allowed for redeliveries), no timer call. The other half are API fuzz sequences (300-600 calls, 1-4 instances, arbitrary well-typed payloads, rejecting verification callbacks, failing ProcessBlock/ProcessPreBlock, validator set / own index / watch-only flag changing at Reset). Every call, organic or injected, runs under recover() with a development-mode logger, so DPanic assertions count as panics."),
  "C17": ("5.17", "The real example program (initNodes, updatePublicKeys, every node's Run loop, real timer.Timer, real ECDSA) runs for 60-120 simulated seconds inside a testing/synctest bubble under a seeded baton scheduler that picks which parked goroutine proceeds at every library log call; 1-7 validators, 0-2 watch-only nodes, optional blocked validator; every validator must reach at least half (a quarter with a blocked validator) of duration/5s heights and all nodes must approve the same blocks. Same-seed trace divergence (runtime select choice) is measured and reported; the oracle holds under every schedule."),
  "C18": ("5.18", "Real timer.Timer in a testing/synctest bubble (exact fake clock), tape-generated sequences of 3-40 Reset/Extend/sleep/poll/wait operations with zero, short and long durations, against a reference deadline model: never early, delivered exactly at the deadline to a waiting reader, immediate for zero duration, Height/View of the latest reset, nothing armed earlier is read before the new deadline. Fully deterministic; failing sequences shrink to a handful of operations."),
  "C20": ("5.20", "TLC simulation mode (seeded random walks, depth <= 100) over each of the five shipped specifications with configurations generated from the .launch files in the working tree, invariants TypeOK, InvTwoBlocksAccepted[Advanced], InvFaultNodesCount; quick: per spec the shipped all-good configuration, every single-faulty-node configuration with MaxView 2 and 2 seed-chosen others (1500 walks each), thorough: all 13 fault-set pairs x MaxView 1,2 (6000 walks each). Sampled, not exhaustive: exhaustive TLC would be a different technique. One known finding (S1: the shipped dbftCV3 model with a faulty node), reproduced by replaying its recorded behaviour against the working tree's Next relation."),
